@@ -271,6 +271,11 @@ func runOps(h *Host, ops []Op, hk *execHooks, st *Stats) (*Trace, *Violation) {
 		case "release":
 			h.Release(op.Inv, op.Err)
 			settle(hk.bubble)
+		case "snapshot":
+			func() {
+				defer func() { recover() }()
+				h.dr.Snapshot()
+			}()
 		}
 		if v := finishOp(i, op, got, h, hk, tr, ev0); v != nil {
 			return tr, v
